@@ -13,6 +13,8 @@ atomic steps, for property C19.
   `respFreeCount` times).  REQUEST: the generated decision tree `requestDecision` gives the number of
   dispatches and the error replies; the service either invokes the one-shot done-callback inside
   `CallMethod` (`Meth.sync`) or keeps it (`Meth.defer`) until a later `fireDone`.
+* The mutex itself, and completion closures that call `CallMethod` on their own channel, are `Model/RpcLock.lean`
+  (a machine on top of this one whose every step is a step of this one).
 * Framing (RpcCodec, property C18) is transparent: whole `RpcMessage`s in, whole `RpcMessage`s out.
   Protobuf is not modelled: whether a payload parses is part of the message (`Body`).
 * Heap cells (`Cell`) make frees and uses of the response / closure objects observable events.
